@@ -22,7 +22,8 @@ RULE = ("labels: every PSK order 2..2^12 / QAM order 4..4^6 / BPSK / QPSK x a "
         "Signature = (kind, class, M, history length | dtype, shape kind, "
         "magnitude class); non-trivial = at least one pair / integer decided.  "
         "Bit-error operands also come in different integer widths (one narrow, "
-        "one 64-bit with values outside the narrow range). ")
+        "one 64-bit with values outside the narrow range). "
+        "Both bit-error operands in one narrow dtype (counts beyond that dtype); arrays that start with 0 and end with len-1 without being arange. ")
 ASSUMPTIONS = ["popcount reference is Python's int.bit_count",
                "minimum-distance pairs: distance <= d_min(1+1e-9)"]
 
@@ -276,6 +277,14 @@ def case_codes_random(ctx, rng, idx):
     mag = "2^%d" % (8 * (bits // 8))
     form = FORMS[idx % len(FORMS)]
     check_codes(ctx, vals[:16] if form == "pyint" else vals, form, mag)
+    if idx % 4 == 1 and form not in ("pyint", "0d"):
+        # arrays that merely LOOK like arange(L) from their two ends: symbol
+        # indexes of a block that happens to start with 0 and end with L-1
+        L = int(rng.integers(3, 65))
+        mid = [int(v) for v in rng.integers(0, min(2 ** bits, 64), size=L - 2)]
+        if rng.random() < 0.4:
+            mid = [int(v) for v in rng.permutation(np.arange(1, L - 1))]   # a permutation of 0..L-1
+        check_codes(ctx, [0] + mid + [L - 1], form, "ends-like-arange")
     ctx.sample("codes-random", {"bits": bits, "form": form, "values_head": vals[:4]})
 
 
@@ -303,6 +312,14 @@ def case_biterrors(ctx, rng, idx):
         b = np.asarray(b).astype(np.int64)       # keeps all its `bits` bits
         if rng.random() < 0.5:
             a, b = b, a
+    elif kind != "pyint" and rng.random() < 0.3:
+        # both index arrays in the same narrow dtype (symbol indexes of a small
+        # constellation stored compactly): the COUNT may well exceed that dtype
+        t = [np.uint8, np.int8, np.uint16, np.int16][int(rng.integers(0, 4))]
+        hi = int(np.iinfo(t).max) + 1
+        a = (np.asarray(a, dtype=np.int64) % hi).astype(t)
+        b = (np.asarray(b, dtype=np.int64) % hi).astype(t)
+        dtype = t
     if kind in ("2d", "3d") and rng.random() < 0.4:
         # transposed / Fortran-ordered views (values unchanged, memory order differs)
         if rng.random() < 0.5:
